@@ -210,7 +210,8 @@ impl Gen for ContentType {
         "text/plain".parse().unwrap()
     }
     fn alts(_: Pos, _: u32) -> Alts<Self> {
-        vec![set("charset", "text/plain; charset=utf-8".parse::<ContentType>().unwrap()), set("octet", "application/octet-stream".parse::<ContentType>().unwrap())]
+        // (incl. the media type of browser form uploads: as the Content-Type *member* of an upload it is an ordinary value)
+        vec![set("charset", "text/plain; charset=utf-8".parse::<ContentType>().unwrap()), set("octet", "application/octet-stream".parse::<ContentType>().unwrap()), set("form-data", "multipart/form-data; boundary=----x".parse::<ContentType>().unwrap()), set("urlencoded", "application/x-www-form-urlencoded".parse::<ContentType>().unwrap())]
     }
 }
 
